@@ -1,0 +1,37 @@
+//go:build verif
+
+// Contracts for routing batches by leaseholder (read as text by /verif's govc; comment-only).
+
+package proxy
+
+//@ import aspen "github.com/synnaxlabs/aspen"
+//@ import node "github.com/synnaxlabs/synnax/pkg/distribution/node"
+
+//@ # an entry's lease is a deterministic function of the entry
+//@ pure func (e Entry) Lease() aspen.NodeKey
+
+//@ # Batch: every entry lands in exactly the bucket of its lease - Free for unleased entries,
+//@ # Gateway for the host's, Peers[lease] otherwise - and no bucket holds a foreign entry; no peer
+//@ # bucket is empty and none is keyed by the host or by the free key.
+//@ func (f BatchFactory[E]) Batch(entries []E) (b Batch[E])
+//@   tparams E Entry
+//@   ensures b.Peers != nil
+//@   ensures forall j int :: 0 <= j && j < len(b.Free) ==> b.Free[j].Lease() == node.KeyFree
+//@   ensures forall j int :: 0 <= j && j < len(b.Gateway) ==> b.Gateway[j].Lease() == f.Host && f.Host != node.KeyFree
+//@   ensures forall n node.Key :: __in(b.Peers, n) ==> n != node.KeyFree && n != f.Host && len(b.Peers[n]) > 0
+//@   ensures forall n node.Key, j int :: __in(b.Peers, n) && 0 <= j && j < len(b.Peers[n]) ==> b.Peers[n][j].Lease() == n
+//@   ensures forall i int :: 0 <= i && i < len(entries) && entries[i].Lease() == node.KeyFree ==> (exists j int :: 0 <= j && j < len(b.Free) && __eq(b.Free[j], entries[i]))
+//@   ensures forall i int :: 0 <= i && i < len(entries) && entries[i].Lease() != node.KeyFree && entries[i].Lease() == f.Host ==> (exists j int :: 0 <= j && j < len(b.Gateway) && __eq(b.Gateway[j], entries[i]))
+//@   ensures forall i int :: 0 <= i && i < len(entries) && entries[i].Lease() != node.KeyFree && entries[i].Lease() != f.Host ==> __in(b.Peers, entries[i].Lease()) && (exists j int :: 0 <= j && j < len(b.Peers[entries[i].Lease()]) && __eq(b.Peers[entries[i].Lease()][j], entries[i]))
+//@   ensures len(b.Free) + len(b.Gateway) <= len(entries)
+//@   modifies nothing
+//@   loop 0 invariant b.Peers != nil
+//@   loop 0 invariant forall j int :: 0 <= j && j < len(b.Free) ==> b.Free[j].Lease() == node.KeyFree
+//@   loop 0 invariant forall j int :: 0 <= j && j < len(b.Gateway) ==> b.Gateway[j].Lease() == f.Host && f.Host != node.KeyFree
+//@   loop 0 invariant forall n node.Key :: __in(b.Peers, n) ==> n != node.KeyFree && n != f.Host && len(b.Peers[n]) > 0
+//@   loop 0 invariant forall n node.Key, j int :: __in(b.Peers, n) && 0 <= j && j < len(b.Peers[n]) ==> b.Peers[n][j].Lease() == n
+//@   loop 0 invariant forall i int :: 0 <= i && i < __ri(0) && entries[i].Lease() == node.KeyFree ==> (exists j int :: 0 <= j && j < len(b.Free) && __eq(b.Free[j], entries[i]))
+//@   loop 0 invariant forall i int :: 0 <= i && i < __ri(0) && entries[i].Lease() != node.KeyFree && entries[i].Lease() == f.Host ==> (exists j int :: 0 <= j && j < len(b.Gateway) && __eq(b.Gateway[j], entries[i]))
+//@   loop 0 invariant forall i int :: 0 <= i && i < __ri(0) && entries[i].Lease() != node.KeyFree && entries[i].Lease() != f.Host ==> __in(b.Peers, entries[i].Lease()) && (exists j int :: 0 <= j && j < len(b.Peers[entries[i].Lease()]) && __eq(b.Peers[entries[i].Lease()][j], entries[i]))
+//@   loop 0 invariant len(b.Free) + len(b.Gateway) <= __ri(0)
+//@   loop 0 modifies b.Peers
